@@ -631,11 +631,16 @@ fn parse_non_constant_value(
                 IsographLangTokenKind::IntegerLiteral,
                 semantic_token_legend::ST_NUMBER_LITERAL,
             )?;
-            number
-                .map(|number| {
-                    NonConstantValue::Integer(number.parse().expect("Expected valid integer"))
-                })
-                .wrap_ok()
+            let embedded_location = number.location;
+
+            number.and_then(|number| match number.parse() {
+                Ok(integer) => NonConstantValue::Integer(integer).wrap_ok(),
+                Err(_) => Diagnostic::new(
+                    "Integer literal is out of range".to_string(),
+                    embedded_location.to::<Location>().wrap_some(),
+                )
+                .wrap_err(),
+            })
         })?;
 
         to_control_flow::<_, Diagnostic>(|| {
